@@ -200,6 +200,16 @@ def server_fuzz(ctx, nreq, stalled_upload=False):
             st, b = http_req(api_port, "GET", "/version", None, timeout=1.0)
             if st != 200:
                 return "the API does not answer /version within 1 s (%s)" % (st,)
+            # ... and the routes that take the collection's locks answer too: listing, and a create + delete of a fresh proxy
+            st, b = http_req(api_port, "GET", "/proxies", None, timeout=2.0)
+            if st != 200:
+                return "the API does not answer GET /proxies within 2 s (%s)" % (st,)
+            st, b = http_req(api_port, "POST", "/proxies", json.dumps({"name": "healthprobe", "listen": "127.0.0.1:%d" % (base + 9), "upstream": "127.0.0.1:%d" % echo_port}), timeout=2.0)
+            if st not in (201, 409):
+                return "the API does not accept a new proxy within 2 s (POST /proxies answered %s)" % (st,)
+            st, b = http_req(api_port, "DELETE", "/proxies/healthprobe", None, timeout=2.0)
+            if st not in (204, 404):
+                return "the API does not delete a proxy within 2 s (DELETE answered %s)" % (st,)
             try:
                 s = socket.create_connection(("127.0.0.1", px_port), timeout=1.0)
                 s.settimeout(1.5)
